@@ -175,7 +175,7 @@ Definition ex_all := mkC 1 0 1 0.
 Definition ex_even := mkC 2 0 1 0.
 (* two subscriptions, a burst of 20 into a ring of 16 (lag), a re-subscription of actor 0,
    actor 1 stopped, more publishes *)
-Definition ex_sc := mkScen [] ([OSub 0 ex_all; OSub 1 ex_even] ++ burst 0 5 ++ [OSettle] ++ burst 5 20
+Definition ex_sc := mkScen [] ([OStart 0; OStart 1; OSub 0 ex_all; OSub 1 ex_even] ++ burst 0 5 ++ [OSettle] ++ burst 5 20
                                ++ [OSub 0 ex_even; OSettle; OKill 1] ++ burst 25 3 ++ [OSettle]).
 Example ex_v1_result : X1.result 16 ex_sc =
   [[0; 1; 2; 3; 4; 9; 10; 11; 12; 13; 14; 15; 16; 17; 18; 19; 20; 21; 22; 23; 24; 25; 26; 27];
@@ -193,9 +193,25 @@ Example ex_oracle : check_C16 false 16 ex_sc (X1.result 16 ex_sc) = true
 Proof. vm_compute. repeat split; reflexivity. Qed.
 (* the canonical trace of the example really contains a Lagged step: subscription 0 is 20 behind *)
 Example ex_never_behind_fails :
-  let '(_, st, acc) := X1.exec 16 (mkScen [] ([OSub 0 ex_all] ++ burst 0 20)) in
+  let '(_, st, acc) := X1.exec 16 (mkScen [] ([OStart 0; OSub 0 ex_all] ++ burst 0 20)) in
   V1.behind cspec st 0 = 20%nat.
 Proof. vm_compute. reflexivity. Qed.
+
+(* a subscriber that is still Starting (parked in pre_start) when it is subscribed and while
+   0..4 are published and forwarded: the items wait in its mailbox and are all handled, in
+   order, once it is Running; if its pre_start fails instead it receives nothing and the
+   other subscriber is unaffected *)
+Definition ex_starting := mkScen [] ([OStart 1; OSub 0 ex_all; OSub 1 ex_all] ++ burst 0 5 ++ [OSettle]).
+Example ex_starting_queued :
+  X1.result 16 ex_starting = [[]; [0; 1; 2; 3; 4]]
+  /\ (let '(_, st, _) := X1.exec 16 ex_starting in c_mbox (V1.absv cspec 0 0 st)) = [0; 1; 2; 3; 4]
+  /\ X1.result 16 (mkScen [] (sc_ops ex_starting ++ [OStart 0] ++ burst 5 2 ++ [OSettle]))
+     = [[0; 1; 2; 3; 4; 5; 6]; [0; 1; 2; 3; 4; 5; 6]]
+  /\ X2.result (mkScen [] (sc_ops ex_starting ++ [OStart 0] ++ burst 5 2 ++ [OSettle]))
+     = [[0; 1; 2; 3; 4; 5; 6]; [0; 1; 2; 3; 4; 5; 6]]
+  /\ X1.result 16 (mkScen [] (sc_ops ex_starting ++ [OFailStart 0] ++ burst 5 2 ++ [OSettle]))
+     = [[]; [0; 1; 2; 3; 4; 5; 6]].
+Proof. vm_compute. repeat split; reflexivity. Qed.
 
 (* the hypotheses of C16_v2_exact's second part are met: subscription 0 of the example is
    still served, its actor alive, and everything owed has been received *)
